@@ -63,7 +63,9 @@ def candidate_wids(seed: int, prop: str):
                 yield w + "#s1"
     for n, i in enumerate(gens):
         d = gen_defs.gen_def(i)
-        if gen_defs.excluded_by(d):
+        # R1-R3 exclude classes on which the pinned tree violates C01/C02/
+        # C05; loop extraction (C07) holds on them, so C07 explores them too
+        if gen_defs.excluded_by(d) and prop != "C07":
             continue
         if prop == "C07" and puml_sem.count_kind(d, ("loop",)) == 0:
             continue
